@@ -257,3 +257,80 @@ func inlinable(fn *ssa.Function) bool {
 	}
 	return n == 1
 }
+
+// onlyGoStarted: fn is a named function all of whose (known) call sites are go statements.
+func (c *Ctx) onlyGoStarted(fn *ssa.Function) bool {
+	sites, known := c.staticCallSites(fn)
+	if !known {
+		return false
+	}
+	for _, s := range sites {
+		if _, ok := s.(*ssa.Go); !ok {
+			return false
+		}
+	}
+	return len(sites) > 0
+}
+
+// goPoints returns the go statements under which fn's body runs asynchronously:
+// the statement creating the literal it is (nested in), or the statements starting the named function.
+func (c *Ctx) goPoints(fn *ssa.Function) []*ssa.Go {
+	var out []*ssa.Go
+	for f := fn; f != nil; f = f.Parent() {
+		if p := f.Parent(); p != nil {
+			instrs(p, func(in ssa.Instruction) {
+				if g, ok := in.(*ssa.Go); ok {
+					if mc, ok := g.Common().Value.(*ssa.MakeClosure); ok && mc.Fn == f {
+						out = append(out, g)
+					}
+				}
+			})
+			if len(out) > 0 {
+				return out
+			}
+			continue
+		}
+		if c.onlyGoStarted(f) {
+			sites, _ := c.staticCallSites(f)
+			for _, s := range sites {
+				out = append(out, s.(*ssa.Go))
+			}
+		}
+	}
+	return out
+}
+
+// InlEvent is one instruction met by WalkInl, with the parameter environment of the helper it lies in.
+type InlEvent struct {
+	In  ssa.Instruction
+	Fn  *ssa.Function
+	Env map[ssa.Value]*X
+	Via []ssa.CallInstruction
+}
+
+// WalkInl visits the instructions of fn in dominator-tree preorder; at a
+// static call of a same-package named helper it first visits the call, then
+// the helper's instructions (recursively, bounded), so that the sequence of
+// effects is seen in execution order regardless of how it is split into helpers.
+func (c *Ctx) WalkInl(fn *ssa.Function, depth int, visit func(ev InlEvent)) {
+	var rec func(g *ssa.Function, env map[ssa.Value]*X, via []ssa.CallInstruction, d int, stack map[*ssa.Function]bool)
+	rec = func(g *ssa.Function, env map[ssa.Value]*X, via []ssa.CallInstruction, d int, stack map[*ssa.Function]bool) {
+		for _, b := range g.DomPreorder() {
+			for _, in := range b.Instrs {
+				visit(InlEvent{In: in, Fn: g, Env: env, Via: via})
+				ci, ok := in.(*ssa.Call)
+				if !ok || d <= 0 {
+					continue
+				}
+				callee := ci.Call.StaticCallee()
+				if !samePkgBody(fn, callee) || callee.Parent() != nil || stack[callee] {
+					continue
+				}
+				stack[callee] = true
+				rec(callee, c.callEnv(ci, callee, env), append(append([]ssa.CallInstruction{}, via...), ci), d-1, stack)
+				delete(stack, callee)
+			}
+		}
+	}
+	rec(fn, nil, nil, depth, map[*ssa.Function]bool{fn: true})
+}
